@@ -336,6 +336,23 @@ func c10GenChains(r *xrand.Rand, idx int, tier string) *fw.Case {
 		}
 		return &fw.Case{Meta: map[string]string{"blocks": strings.Join(blocks, "\x00")}, Docs: []run.Doc{{}}}
 	}
+	if idx%3 == 1 && idx%2 == 0 {
+		// a chain of heirs over a base that has a key shortcut next to ordinary properties: what each heir lists must
+		// not depend on whether the type in the middle was declared (and processed) before or after it
+		blocks := []string{
+			"TYPE @kbase\n  {\n    \"lit\": 1,\n    @kkey : 4\n  }\n",
+			"TYPE @kkey\n  \"k\"\n",
+			"TYPE @kmid\n  { // {allOf: \"@kbase\"}\n    \"mid\": 2\n  }\n",
+			"TYPE @kheir\n  { // {allOf: \"@kmid\"}\n    \"own\": 3\n  }\n",
+		}
+		if r.Bool() {
+			blocks = append(blocks, "GET /kx\n  200 @kheir\n")
+		}
+		if r.Bool() {
+			blocks = append(blocks, "TYPE @kheir2\n  { // {allOf: [\"@kmid\"]}\n    \"own2\": 5\n  }\n")
+		}
+		return &fw.Case{Meta: map[string]string{"blocks": strings.Join(blocks, "\x00")}, Docs: []run.Doc{{}}}
+	}
 	n := r.Range(1, 3) // links before the object
 	var blocks []string
 	for i := 0; i < n; i++ {
